@@ -1,6 +1,8 @@
 import Deb822Verif.Lemmas.RelLexField
 /-! The lossless relation parser on the token list of a well-formed field: it produces exactly
     `FieldA.tree`, without errors (C10, stage 2). -/
+set_option linter.unusedSimpArgs false
+set_option linter.unusedVariables false
 namespace Deb822Verif.Rel
 open Deb822Verif Node RelSpec PR
 
@@ -117,8 +119,8 @@ theorem gap_head_not {P : Kind → Prop} (g : Gap) (more : List Tok) (hws : P .W
     intro t ht
     cases x <;> (simp [gapToks, GapPiece.tok] at ht; subst ht; assumption)
 
-/-- the whole `( … )` block, preceded by any gap (g4 must be empty: finding F-C10-3) -/
-theorem versionPart_ver (g : Gap) (v : VerPart) (more : List Tok) (h4 : v.g4 = []) :
+/-- the whole `( … )` block, preceded by any gap -/
+theorem versionPart_ver (g : Gap) (v : VerPart) (more : List Tok) :
     versionPart (gapToks g ++ (.L_PARENS, ['(']) :: (v.inner ++ (.R_PARENS, [')']) :: more))
       = ⟨tks (gapToks g) ++ [v.node], [], more⟩ := by
   have hp : peekPastWs (gapToks g ++ (Kind.L_PARENS, ['(']) :: (v.inner ++ (Kind.R_PARENS, [')']) :: more))
@@ -127,20 +129,27 @@ theorem versionPart_ver (g : Gap) (v : VerPart) (more : List Tok) (h4 : v.g4 = [
   have hs := skipWs_gap g ((Kind.L_PARENS, ['(']) :: (v.inner ++ (Kind.R_PARENS, [')']) :: more))
     (noWs_cons _ _ rfl)
   have e1 : v.inner ++ (Kind.R_PARENS, [')']) :: more
-      = gapToks v.g2 ++ (opToks v.op ++ (gapToks v.g3 ++ (v.ver.toks ++ (Kind.R_PARENS, [')']) :: more))) := by
-    simp [VerPart.inner, h4, gapToks]
-  have s2 := skipWs_gap v.g2 (opToks v.op ++ (gapToks v.g3 ++ (v.ver.toks ++ (Kind.R_PARENS, [')']) :: more)))
+      = gapToks v.g2 ++ (opToks v.op ++ (gapToks v.g3 ++ (v.ver.toks ++ (gapToks v.g4 ++ (Kind.R_PARENS, [')']) :: more)))) := by
+    simp [VerPart.inner]
+  have s2 := skipWs_gap v.g2 (opToks v.op ++ (gapToks v.g3 ++ (v.ver.toks ++ (gapToks v.g4 ++ (Kind.R_PARENS, [')']) :: more))))
     (opToks_noWs _ _)
-  have c := constraintLoop_op v.op (gapToks v.g3 ++ (v.ver.toks ++ (Kind.R_PARENS, [')']) :: more))
+  have c := constraintLoop_op v.op (gapToks v.g3 ++ (v.ver.toks ++ (gapToks v.g4 ++ (Kind.R_PARENS, [')']) :: more)))
     (gap_head_not (P := fun k => k ≠ .L_ANGLE ∧ k ≠ .R_ANGLE ∧ k ≠ .EQUAL) _ _ (by decide) (by decide) (by
       intro t ht
       cases he : v.ver.epoch <;> (simp [VersionA.toks, he] at ht; subst ht; simp)))
-  have s3 := skipWs_gap v.g3 (v.ver.toks ++ (Kind.R_PARENS, [')']) :: more) (verToks_noWs _ _)
-  have vt := versionTok_ver v.ver ((Kind.R_PARENS, [')']) :: more) (by simp [cur])
+  have s3 := skipWs_gap v.g3 (v.ver.toks ++ (gapToks v.g4 ++ (Kind.R_PARENS, [')']) :: more)) (verToks_noWs _ _)
+  have hnc : cur (gapToks v.g4 ++ (Kind.R_PARENS, [')']) :: more) ≠ some .COLON := by
+    have := gap_head_not (P := fun k => k ≠ Kind.COLON) v.g4 ((Kind.R_PARENS, [')']) :: more)
+      (by decide) (by decide) (by intro t ht; simp at ht; subst ht; simp)
+    cases hx : gapToks v.g4 ++ (Kind.R_PARENS, [')']) :: more with
+    | nil => simp [cur]
+    | cons t r => simpa [cur] using this t (by rw [hx]; rfl)
+  have vt := versionTok_ver v.ver (gapToks v.g4 ++ (Kind.R_PARENS, [')']) :: more) hnc
+  have s4 := skipWs_gap v.g4 ((Kind.R_PARENS, [')']) :: more) (noWs_cons _ _ rfl)
   have ex := expect_hit .R_PARENS "Expected ')'" (Kind.R_PARENS, [')']) more rfl
   simp only [versionPart, hp, ↓reduceIte, PR.andThen, hs, bump1]
-  simp only [e1, s2, PR.wrap, c, s3, vt, ex]
-  simp [VerPart.node, h4, gapToks]
+  simp only [e1, s2, PR.wrap, c, s3, vt, s4, ex]
+  simp [VerPart.node]
 
 theorem versionPart_none (ts : List Tok) (h : peekPastWs ts ≠ some .L_PARENS) :
     versionPart ts = PR.nil ts := by
@@ -365,10 +374,10 @@ theorem arch_stage (a : Option Bracket) (ps : List Bracket) (x : List Tok) (hx :
     simp [archToks, archNodes, PR.andThen, archPart_archs, profs_stage ps x hx]
 
 theorem stage2_v (g : Gap) (v : VerPart) (a : Option Bracket) (ps : List Bracket) (x : List Tok)
-    (h4 : v.g4 = []) (hx : EndPeek x) :
+    (hx : EndPeek x) :
     stage2 (gapToks g ++ (vbody v ++ (archToks a ++ (profsToks ps ++ x))))
       = ⟨tks (gapToks g) ++ v.node :: (archNodes a ++ profsNodes ps), [], x⟩ := by
-  have := versionPart_ver g v (archToks a ++ (profsToks ps ++ x)) h4
+  have := versionPart_ver g v (archToks a ++ (profsToks ps ++ x))
   simp only [vbody, List.cons_append, List.append_assoc, List.nil_append] at this ⊢
   have h2 := arch_stage a ps x hx
   simp only [PR.andThen] at h2
@@ -437,7 +446,7 @@ theorem VerPart.toks_eq (v : VerPart) : v.toks = gapToks v.pre ++ vbody v := by
 
 /-- C10 stage 2, one relation: `parse_relation` on the tokens of a well-formed relation followed by
     a gap and then `|`, `,` or the end of input -/
-theorem parseRelation_rel (r : RelA) (hc : r.hasCloseGap = false) (tail : Gap) (more : List Tok)
+theorem parseRelation_rel (r : RelA) (tail : Gap) (more : List Tok)
     (hm : RelEnd more) :
     parseRelation (r.toks ++ (gapToks tail ++ more)) =
       if r.tailInside (followOf more) then ⟨[r.node (gapToks tail)], [], more⟩
@@ -450,10 +459,9 @@ theorem parseRelation_rel (r : RelA) (hc : r.hasCloseGap = false) (tail : Gap) (
   simp only [List.cons_append, List.append_assoc, expect_hit .IDENT _ (Kind.IDENT, name) _ rfl, PR.andThen]
   cases v with
   | some v =>
-    have h4 : v.g4 = [] := by simpa [RelA.hasCloseGap] using hc
     have h1 := aq_stage aq v.pre (vbody v ++ (archToks a ++ (profsToks ps ++ (gapToks tail ++ more))))
       (noWs_cons _ _ rfl) (by simp [vbody, cur])
-    have h2 := stage2_v [] v a ps (gapToks tail ++ more) h4 hx
+    have h2 := stage2_v [] v a ps (gapToks tail ++ more) hx
     simp only [gapToks, List.map_nil, List.nil_append, tks_nil] at h2
     simp only [verToks, VerPart.toks_eq, List.append_assoc, h1]
     simp [RelA.tailInside, RelA.bare, PR.wrap, h2, gapToks]
@@ -515,12 +523,12 @@ theorem relToks_noWs (r : RelA) (x : List Tok) : NoWs (r.toks ++ x) := by
   rw [RelA.toks_eq]; exact noWs_cons _ _ rfl
 
 theorem entryLoop_alts (r : RelA) (rest : List AltA) (post : Gap) (more : List Tok)
-    (hr : r.hasCloseGap = false) (hrest : ∀ a ∈ rest, a.rel.hasCloseGap = false) (hm : EntryEnd more) :
+    (hm : EntryEnd more) :
     entryLoop (r.toks ++ (altsToks rest ++ (gapToks post ++ more)))
       = ⟨(altsNodes r rest post (followOf more)).1, [], (altsNodes r rest post (followOf more)).2 ++ more⟩ := by
   induction rest generalizing r with
   | nil =>
-    have hpr := parseRelation_rel r hr post more hm.relEnd
+    have hpr := parseRelation_rel r post more hm.relEnd
     simp only [altsToks, List.map_nil, List.flatten_nil, List.nil_append]
     rw [entryLoop]
     rcases hm with rfl | ⟨x, rfl⟩
@@ -548,9 +556,8 @@ theorem entryLoop_alts (r : RelA) (rest : List AltA) (post : Gap) (more : List T
         simp only [hpr, hp]
         simp [altsNodes, hf, ht]
   | cons a as ih =>
-    have hra := hrest a (by simp)
-    have ih' := ih a.rel hra (fun b hb => hrest b (by simp [hb]))
-    have hpr := parseRelation_rel r hr a.gb
+    have ih' := ih a.rel
+    have hpr := parseRelation_rel r a.gb
       ((.PIPE, ['|']) :: (gapToks a.ga ++ (a.rel.toks ++ (altsToks as ++ (gapToks post ++ more)))))
       (Or.inr ⟨_, _, rfl, Or.inl rfl⟩)
     have hf : followOf ((Kind.PIPE, ['|']) :: (gapToks a.ga ++ (a.rel.toks ++ (altsToks as ++ (gapToks post ++ more)))))
@@ -691,10 +698,9 @@ theorem bodyToks_noWs (s : Seg) (hs : s.ok = true) (ss : List Seg) : NoWs (bodyT
     simp only [bodyToks, he, EntryA.toks, List.append_assoc]
     exact relToks_noWs _ _
 
-/-- conditions under which the parser reproduces `tree`: no whitespace before `)` (F-C10-3), and
-    substitution variables only when they are allowed -/
-def segParseOk (allow : Bool) (s : Seg) : Prop :=
-  (∀ r ∈ s.entry.rels, r.hasCloseGap = false) ∧ (s.entry.isSubstvar = true → allow = true)
+/-- condition under which the parser reproduces `tree`: substitution variables only when they are
+    allowed -/
+def segParseOk (allow : Bool) (s : Seg) : Prop := s.entry.isSubstvar = true → allow = true
 
 def svTail (p : Str) (ps : List Str) : List Tok :=
   (.L_CURLY, ['{']) :: (.IDENT, p)
@@ -708,7 +714,7 @@ theorem seg_head (allow : Bool) (s : Seg) (hp : segParseOk allow s) (hne : s.ent
     (more : List Tok) (hm : EntryEnd more) :
     ∃ t r x n1 n2, bodyToks s ++ more = t :: r ∧ rootFirst allow t r = ⟨n1, [], x⟩
       ∧ skipWs x = ⟨n2, [], more⟩ ∧ n1 ++ n2 = bodyNodes s (followOf more) := by
-  obtain ⟨hc, hsv⟩ := hp
+  have hsv := hp
   cases he : s.entry with
   | empty => simp [he, EntryA.isEmpty] at hne
   | substvar p ps =>
@@ -722,11 +728,7 @@ theorem seg_head (allow : Bool) (s : Seg) (hp : segParseOk allow s) (hne : s.ent
     · exact skipWs_gap s.post more hm.relEnd.noWs
     · simp [bodyNodes, he]
   | alts r rest =>
-    rw [he] at hc
-    have hr : r.hasCloseGap = false := hc r (by simp [EntryA.rels])
-    have hrest : ∀ a ∈ rest, a.rel.hasCloseGap = false := fun a ha => hc a.rel (by
-      simp only [EntryA.rels, List.mem_cons, List.mem_map]; exact Or.inr ⟨a, ha, rfl⟩)
-    have hel := entryLoop_alts r rest s.post more hr hrest hm
+    have hel := entryLoop_alts r rest s.post more hm
     have hnw : NoWs (r.toks ++ (altsToks rest ++ (gapToks s.post ++ more))) := relToks_noWs _ _
     have h1' : parseEntry (r.toks ++ (altsToks rest ++ (gapToks s.post ++ more)))
         = ⟨[Node.node .ENTRY (altsNodes r rest s.post (followOf more)).1], [],
@@ -793,8 +795,8 @@ theorem rootLoop_segs (allow : Bool) (s : Seg) (ss : List Seg) (hok : ∀ x ∈ 
       rw [e, this, ih', ← List.append_assoc, hn, followOf_tail]
       simp [tailNodes]
 
-/-- C10 stage 2: on the token list of a well-formed field (without whitespace before `)`, and with
-    substitution variables only if they are allowed) the parser builds exactly `tree`, no error -/
+/-- C10 stage 2: on the token list of a well-formed field (with substitution variables only if they
+    are allowed) the parser builds exactly `tree`, no error -/
 theorem parse_field_toks (allow : Bool) (f : FieldA) (h : f.WF)
     (hp : ∀ s ∈ f.segs, segParseOk allow s) : parseTokens allow f.toks = ⟨f.tree, []⟩ := by
   have hok : ∀ s ∈ f.segs, s.ok = true := by
